@@ -33,7 +33,7 @@ EXPLANATION = (
     'converted. Decides these structural parts; decoding of concrete examples is not decided.'
     ' R7 (imported from C08-R6): reading an unset defaulted field returns the default only if the attribute is not generated as nullable through an alias.'
     ' RD (decision drift, stonelint.conddrift): the tests of the functions this property is anchored in (stonelint.ownership) are compared with reference/conditions.json; a relation, polarity or connective changed over the same operands, or an operand purely added or dropped, is a violation; re-spellings and new or removed tests are not claimed.'
-    " RE (expression drift, stonelint.exprdrift): the same functions' attribute names, variable reads, simple statements, calls and arithmetic/slice literals are compared with reference/expressions.json; a substituted attribute or variable, a dropped call or assignment, swapped arguments or a changed literal is a violation; any other edit is not claimed.")
+    " RE (expression drift, stonelint.exprdrift): the same functions' attribute names, variable reads, simple statements, calls and arithmetic/slice literals are compared with reference/expressions.json; a substituted attribute or variable, a dropped call or assignment, swapped arguments or a changed literal is a violation; any other edit is not claimed. RC (call-condition drift, stonelint.conddrift.run_calls): for every call of a repository or imported-library function in those functions, the path conditions of its occurrences are compared with reference/conditions.json by truth table; an assignment under which the function used to make the call and now completes without it is a violation (tests on memo tables, emptiness of the iterated collection and earlier refusals excepted; re-spelled conditions are not claimed). MK (memo-key rule, stonelint.memo): a memo table or done-set the reference tree does not have must be keyed by every access path the skipped code reads, injectively and type-aware.")
 ASSUMPTIONS = [
     'the parser produces default literals of kinds bool, int, float, str, null and tag references '
     '(p_default_option: primitive | tag_ref)',
@@ -242,6 +242,35 @@ def run(pm, ctx):
         'foreign tag defaults are prefixed with the namespace module', gpv.loc,
         msg='tag default of a foreign union is not namespace-qualified',
         key='C10-R5|%s|ns' % gpv.qualname)
+    # a tag default is emitted as the class attribute <Union>.<tag>, which is a value only for a
+    # Void member (for any other member it is a classmethod): ir.Union.check lets a tag
+    # reference through only after testing that the member it names is Void
+    from ..conddrift import _subst_text
+    uc = pm.func('stone.ir.data_types.Union.check')
+    piu = path_info(uc.node)
+    exits = []
+    for lp in own_nodes(uc.node):
+        if isinstance(lp, ast.For):
+            for n in ast.walk(lp):
+                if isinstance(n, (ast.Break, ast.Return)):
+                    exits.append(n)
+    good_exits = 0
+    for n in exits:
+        atoms = [(_subst_text(uc, e), pol) for e, pol in piu.at(n)]
+        named = any(isinstance(e, ast.Compare) and 'tag_name' in unparse(e) and
+                    isinstance(e.ops[0], ast.Eq) and pol for e, pol in piu.at(n))
+        void = any(t.replace('(', '').replace(')', '') == 'is_void_typefield.data_type' and pol
+                   for t, pol in atoms)
+        ok_exit = named and void
+        good_exits += ok_exit
+        ctx.check('C10-R5', ok_exit, 'Union.check accepts a tag reference only for a Void member',
+                  '%s:%d' % (uc.module.relpath, n.lineno),
+                  msg='Union.check leaves the member search at line %d without having tested that '
+                      'the named member is Void (conditions: %s): a default naming a non-Void '
+                      'member is accepted and emitted as a classmethod reference' % (
+                          n.lineno, [t for t, _ in atoms]),
+                  key='C10-R5|%s|void-member' % uc.qualname)
+    ctx.floor('C10-R5', len(exits), 1, 'accepting exits of Union.check')
     # emission order: defaults after every symbol creator
     pos = emission_order(pm)
     ctx.check('C10-R5', '_generate_struct_attributes_defaults' in pos and
